@@ -492,12 +492,14 @@ int tls12_do_connect(TLS_CONNECT *conn)
 	sm4_set_encrypt_key(&conn->client_write_enc_key, conn->key_block + 64);
 	sm4_set_decrypt_key(&conn->server_write_enc_key, conn->key_block + 80);
 
+#ifdef ENABLE_TLS_DEBUG
 	tls_secrets_print(stderr,
 		pre_master_secret, 48,
 		client_random, server_random,
 		conn->master_secret,
 		conn->key_block, 96,
 		0, 4);
+#endif
 
 	// send ClientKeyExchange
 	tls_trace("send ClientKeyExchange\n");
@@ -957,8 +959,10 @@ int tls12_do_accept(TLS_CONNECT *conn)
 	sm4_set_decrypt_key(&conn->client_write_enc_key, conn->key_block + 64);
 	sm4_set_encrypt_key(&conn->server_write_enc_key, conn->key_block + 80);
 
+#ifdef ENABLE_TLS_DEBUG
 	tls_secrets_print(stderr, pre_master_secret, 48, client_random, server_random,
 		conn->master_secret, conn->key_block, 96, 0, 4);
+#endif
 
 	// recv [ChangeCipherSpec]
 	tls_trace("recv [ChangeCipherSpec]\n");
